@@ -398,6 +398,64 @@ func genC09(c *Ctx) {
 		}
 		c.Case("dkg-targeted/"+proto, "expect nopanic #failed-start-"+proto, res)
 	}
+	// exhaustive short sequences of well-formed messages at a non-dealer, in every order (answers before
+	// complaints, complaints before the vector, ...): no order may panic, and every order is a model case too
+	for _, proto := range []string{"fvssq", "joint", "fvss"} {
+		n, t, me, dealer, other := 3, 1, 1, 0, 2
+		p := c.randPoly(t)
+		alphabet := []string{
+			"B:0:" + hx(p.vectorMsg()),
+			"P:0:" + hx(shareMsg(p.eval(me + 1))),
+			"P:0:" + hx(shareMsg(c.randScalar())),
+			fmt.Sprintf("B:%d:%s", other, hx(complaintMsg(dealer))),
+			"B:0:" + hx(answerMsg(other, p.eval(other+1))),
+			"B:0:" + hx(answerMsg(other, c.randScalar())),
+			"B:0:" + hx(answerMsg(me, p.eval(me+1))),
+			"T",
+		}
+		maxLen := 3
+		if proto != "fvssq" {
+			maxLen = 2
+		}
+		if c.thorough() {
+			maxLen++
+		}
+		var seqs [][]int
+		var rec func(cur []int)
+		rec = func(cur []int) {
+			if len(cur) > 0 {
+				seqs = append(seqs, append([]int{}, cur...))
+			}
+			if len(cur) == maxLen {
+				return
+			}
+			for a := range alphabet {
+				rec(append(cur, a))
+			}
+		}
+		rec(nil)
+		seed := "S:" + hx(c.bytes(32))
+		for si, sq := range seqs {
+			nd, err := newDkgNode(proto, n, t, me, dealer)
+			if err != nil {
+				panic(err)
+			}
+			nd.call(seed)
+			for _, a := range sq {
+				nd.call(alphabet[a])
+			}
+			nd.call("T")
+			nd.call("T")
+			nd.call("E")
+			res := "nopanic"
+			if nd.panicked {
+				res = "PANIC in " + nd.line()
+			}
+			c.Case("dkg-enum/"+proto, fmt.Sprintf("expect nopanic #enum-%s-%d", proto, si), res)
+			c.Case("dkg-enum-model/"+proto, nd.line(), nd.answer())
+		}
+	}
+
 	for _, g := range [][4]int{{-1, 1, 0, 0}, {1 << 40, 1, 0, 0}, {3, -1, 0, 0}, {3, 1 << 40, 0, 0}, {3, 1, -1, 0}, {3, 1, 1 << 40, 0}, {3, 1, 0, -1}, {3, 1, 0, 1 << 40}} {
 		c.probe("DKG-constructors", fmt.Sprint(g), true, func() (string, error) {
 			_, e1 := crypto.NewFeldmanVSS(g[0], g[1], g[2], &recProc{}, g[3])
